@@ -7,6 +7,7 @@
                    (batch/batch/front_end/front_end.py, batch/batch/batch.py, commit_batch_update, cancel_job_group)
      driver    : SchedSelect ScheduleProc JpimSelect CreatingProc Started Complete Heartbeat AddResources
                  CancelReadySelect/Call CancelCreatingSelect/Call CancelRunningSelect OrphanSelect UnscheduleCall Activate Deactivate
+                 FailFastSelect/Call
                  CleanStaging CleanCancellable NextDay
                    (driver/instance_collection/pool.py, job_private.py, canceller.py, main.py, job.py and the
                     procedures schedule_job, mark_job_creating, mark_job_started, mark_job_complete,
@@ -22,11 +23,12 @@ EXTENDS Naturals, Integers, FiniteSets, FiniteSetsExt, Sequences, TLC
 CONSTANTS Jobs, Groups, Updates,        \* Jobs = 1..N, Groups = 0..G (0 = root), Updates = 1..U
           JUpd, JGrp, JPar, JAlways, JCores,   \* the program: functions on Jobs (JPar[j] a set of job ids < j)
           GParent, GUpd,                 \* group tree: functions on Groups \ {0}
+          GFail,                         \* cancel_after_n_failures of each group incl. the root (0 = NULL)
           AttIds, Insts, InstCores,      \* attempt ids, instance names, cores of an instance (mcpu)
           Times,                         \* timestamps a message may carry
           ResQ,                          \* quantity of the (single) billed resource of an attempt
           Days,                          \* billing days 0..D
-          Features,                      \* subset of {"jpim","billing","cleaners","delete","deactivate"}
+          Features,                      \* subset of {"jpim","billing","cleaners","delete","deactivate","failfast"}
           Avoid                          \* scenarios of recorded findings that behaviours must not enter (see Props)
 
 VARIABLES us, gex, gst, gnj, canc, bst, bnj, bdel,
@@ -232,6 +234,24 @@ CancelGroup(g) ==             \* batch.cancel_job_group_in_db: existence / commi
   /\ gex[g] /\ ~bdel /\ (IF g = 0 THEN TRUE ELSE us[GUpd[g]] = "committed")
   /\ CancelEffect(g)
   /\ UNCHANGED <<us, gex, gst, gnj, bst, bnj, bdel, js, jc, npp, jatt, tally, stg, att, ares, inst, disp, jdisp, pcall,
+                 ujob, ugrp, ubp, udate, today>>
+
+\* driver/main.py cancel_fast_failing_job_groups (every 10 s): the query selects running, not (transitively) cancelled groups whose
+\* n_failed reached cancel_after_n_failures; for each, _cancel_job_group = the front end's cancel_job_group_in_db, with the
+\* BatchUserError of a refused cancellation swallowed.  Query and calls are separate transactions, so a call may be stale.
+FailFastSelect(g) ==
+  /\ "failfast" \in Features /\ gex[g] /\ gst[g] = "running" /\ ~GrpCanc(g)
+  /\ GFail[g] > 0 /\ tally[g].f >= GFail[g]
+  /\ <<"ff", g, NULL>> \notin pcall
+  /\ pcall' = pcall \cup {<<"ff", g, NULL>>}
+  /\ UNCHANGED <<us, gex, gst, gnj, canc, bst, bnj, bdel, js, jc, npp, jatt, tally, stg, cr, ur, att, ares, inst, disp, jdisp,
+                 ujob, ugrp, ubp, udate, today>>
+
+FailFastCall(g) ==
+  /\ <<"ff", g, NULL>> \in pcall /\ pcall' = pcall \ {<<"ff", g, NULL>>}
+  /\ IF gex[g] /\ ~bdel /\ (IF g = 0 THEN TRUE ELSE us[GUpd[g]] = "committed")
+     THEN CancelEffect(g) ELSE UNCHANGED <<canc, cr, ur>>
+  /\ UNCHANGED <<us, gex, gst, gnj, bst, bnj, bdel, js, jc, npp, jatt, tally, stg, att, ares, inst, disp, jdisp,
                  ujob, ugrp, ubp, udate, today>>
 
 \* _delete_batch = select; CALL cancel_job_group(root); UPDATE deleted = 1 (three transactions).  The middle one is a
@@ -474,7 +494,7 @@ CleanCancellable ==           \* delete_prev_cancelled_job_group_cancellable_res
 -----------------------------------------------------------------------------
 Next ==
   \/ \E u \in Updates : CreateUpdate(u) \/ Commit(u)
-  \/ \E g \in Groups : InsertGroup(g) \/ CancelGroup(g)
+  \/ \E g \in Groups : InsertGroup(g) \/ CancelGroup(g) \/ FailFastSelect(g) \/ FailFastCall(g)
   \/ MarkDeleted
   \/ \E j \in Jobs : InsertJob(j) \/ CancelReadySelect(j) \/ CancelReadyCall(j)
   \/ \E j \in Jobs, a \in AttIds, i \in Insts : SchedSelect(j, a, i) \/ JpimSelect(j, a, i) \/ ScheduleProc(j, a, i)
